@@ -236,13 +236,13 @@ prop('C15', level='other',
             F + 'shape.compute_symmetry', F + 'shape.compute_band_amp', F + 'cyclepoints.compute_cyclepoints',
             F + 'burst.compute_burst_features', F + 'burst.compute_amp_fraction', F + 'burst.compute_amp_consistency',
             F + 'burst.compute_period_consistency', F + 'burst.compute_monotonicity', F + 'burst.compute_burst_fraction',
-            DF + 'drop_samples_df', DF + 'epoch_df', GF + 'compute_features_2d', GF + 'compute_features_3d', BU + 'recompute_edges'],
-     jobs=['purity', 'pipeline:C15', 'armed', 'limit_df', 'epoch_df'],
+            DF + 'drop_samples_df', DF + 'epoch_df', DF + 'limit_df', GF + 'compute_features_2d', GF + 'compute_features_3d', BU + 'recompute_edges'],
+     jobs=['purity', 'pipeline:C15', 'armed', 'limit_df', 'epoch_df', 'armed_limit'],
      no_input_kinds=('frame',),
      explanation='Frame obligations (modifies = []) at every store and mutating call of the listed feature functions: a store must '
                  'reach an object allocated on the path (library allocation behaviour from the assumed numpy / pandas-3 copy-on-write '
                  'contracts); also compute_features_2d(axis=0), compute_features_3d(axis=(0,1)) and recompute_edges. Not under contract: '
-                 'limit_df, epoch_df, the axis=None / axis 0,1 group paths, plotting functions - '
+                 'the axis=None / axis 0,1 group paths, plotting functions - '
                  'these are covered by the bounded purity job (call sequences sharing argument objects, deep comparison).')
 
 prop('C16', level='other',
@@ -269,9 +269,19 @@ prop('C17', level='other', units=['bycycle.cyclepoints.phase._merge_phases'], jo
                  'alternating placement with gaps >= 2 on arrays up to length 9 (12), with and without midpoints (coinciding with '
                  'extrema included), plus corpus cyclepoints at several boundaries.')
 
-prop('C18', level='other', units=[DF + 'drop_samples_df'], jobs=['limit_df', 'limit_signal', 'samples_split_flatten'],
-     explanation='Deductive: drop_samples_df (column partition, values unaltered). Bounded so far: limit_df, limit_signal, '
-                 'split_samples_df, flatten_dfs on exhaustive small grids.')
+prop('C18', level='other', units=[DF + 'drop_samples_df', DF + 'limit_df', DF + 'split_samples_df', 'bycycle.utils.timeseries.limit_signal'], jobs=['limit_df', 'limit_signal', 'samples_split_flatten', 'armed_limit'],
+     unit_jobs={DF + 'limit_df': ['limit_df', 'armed_limit'], 'bycycle.utils.timeseries.limit_signal': ['limit_signal'],
+                DF + 'split_samples_df': ['samples_split_flatten']},
+     explanation='Proved: drop_samples_df (column partition, values unaltered) and limit_df - for tables of any length whose '
+                 'cycles close after they open (C01), both centrings, either limit optional: the result consists of rows of the '
+                 'input in their original order, every value unchanged, every cycle entirely inside [start, stop] among them and '
+                 'none entirely outside, all six sample columns lowered by the one offset int(round(fs * start)) when reset_indices '
+                 'is set and by nothing otherwise; out-of-range fs / start / stop raise ValueError (witness index map composed of '
+                 'the two mask selections, explicit instances; np.round(x, 6) as a nearest multiple of 1e-6 over the reals - the '
+                 'floating-point side of the comparison, defect D13, stays with the bounded job); limit_signal - both returned arrays are exactly the entries with '
+                 'start <= t < stop, in order (same witness construction over the two array selections); split_samples_df - the '
+                 'sample_* columns are popped out of the input table into a second one, no value altered. Bounded: flatten_dfs on '
+                 'exhaustive small grids; the three proved functions again on small grids, off-grid and large-index windows.')
 
 prop('C20', level='other', units=[], jobs=['plots', 'limit_df', 'limit_signal'],
      explanation='Bounded: the arguments handed to the external drawing routines (ghost log by interception) on corpus tables x '
